@@ -274,9 +274,10 @@ def replace_node(graph, node, replacement_graph: ProxyGraph, parser: Parser):
     """
     idx_offset = len(graph.nodes)
     h = parser.parse(replacement_graph.pattern, idx_offset=idx_offset)
+    incident_edges = list(graph.edges(node, data=True))
     graph = nx.compose(graph, h)
     if len(h.nodes) > 0:
-        for i, (_, v, d) in enumerate(graph.edges(node, data=True)):
+        for i, (_, v, d) in enumerate(incident_edges):
             anchor_idx = i
             if len(replacement_graph.anchor) <= i:
                 anchor_idx = len(replacement_graph.anchor) - 1
